@@ -17,13 +17,13 @@ import (
 )
 
 type headerLemma struct {
-	P                              *Prog
-	ok                             bool
-	shiftOKv                       bool
-	cells, sats, sigs, numCells    *types.Var
-	hdrT                           *types.Named
-	getCells                       *ssa.Function
-	problems                       []string
+	P                           *Prog
+	ok                          bool
+	shiftOKv                    bool
+	cells, sats, sigs, numCells *types.Var
+	hdrT                        *types.Named
+	getCells                    *ssa.Function
+	problems                    []string
 }
 
 func (h *headerLemma) shiftOK(x *ssa.BinOp) bool {
